@@ -2395,7 +2395,8 @@ class NameCheckVisitor(node_visitor.ReplacingNodeVisitor):
         if not return_values:
             ret = AnyValue(AnySource.inference)
         else:
-            ret = unite_values(*return_values)
+            # constraints built from the return expressions are about the callee's own variables
+            ret = _without_constraints(unite_values(*return_values))
         if isinstance(node, ast.Lambda):
             has_return_annotation = False
         else:
